@@ -17,5 +17,8 @@ pub fn dir(name: &str) -> PathBuf {
 }
 
 pub fn cleanup() {
-    let _ = std::fs::remove_dir_all(root());
+    if std::fs::remove_dir_all(root()).is_err() && root().exists() {
+        // e.g. a tree nested too deep for a recursive walk
+        let _ = std::process::Command::new("rm").arg("-rf").arg("--").arg(root()).status();
+    }
 }
